@@ -50,9 +50,23 @@ func sizePositions(frame []byte) []int {
 	return pos
 }
 
+// giantRequest is well framed but extreme: an unknown method whose name is
+// n bytes long (the reply quotes the name, so it can overflow a reply limit
+// the request itself fits in).
+func giantRequest(proto string, n int) []byte {
+	return EncodeFrame(map[string]string{"_opid": "779", "_cid": "c", "_timeout": "2000", "tag": "ghost"},
+		rawMessage(proto, strings.Repeat("m", n), thrift.CALL, []rawField{{1, thrift.I32, int32(1)}}))
+}
+
 func corruptFrame(rc *RunCtx, valid []byte, streamEntry bool) ([]byte, string) {
 	tp := rc.Tape
 	b := append([]byte(nil), valid...)
+	if rc.Params["giant"] != "" || (rc.Sample["entry"] != nil && strings.HasSuffix(rc.Sample["entry"].(string), "-server") && tp.Intn("corrupt", 8) == 0) {
+		n := []int{100, 70000, 300000, 600000}[tp.Intn("corrupt", 4)]
+		rc.Fault("giant-unknown-method-name")
+		proto, _ := rc.Sample["protocol"].(string)
+		return giantRequest(proto, n), fmt.Sprintf("well-framed request for an unknown method with a %d-byte name", n)
+	}
 	switch tp.Intn("corrupt", 7) {
 	case 0:
 		n := tp.Intn("corrupt", 6)
